@@ -426,8 +426,12 @@ theorem refused_operation_leaves_no_trace {s : Seq} (h : Reachable s) (op : Op) 
   refused_leaves_state h.wf op hop he
 
 /-- **What is not a content item never enters**: the `isinstance` arm of the four REGENERATED decision trees is a
-TypeError whatever the flags, and the model's operations with such an argument change nothing (`extend` / `+=` keep the
-content items offered before it).  A plain `Dataset` that merely looks like a content item is such an argument. -/
+TypeError whatever the flags, and the model's operations `append` / `insert` / item and slice assignment / `extend` / `+=`
+with such an argument change nothing (`extend` / `+=` keep the content items offered before it).  A plain `Dataset` that
+merely looks like a content item is such an argument.  For the CONSTRUCTOR the fourth clause is only what its tree says
+once reached: the regenerated program fills the index (`self._lut[i.name]`) BEFORE the checks, so a plain `Dataset` is
+refused there with AttributeError — `constructor_refuses_non_items`; refusal is the claim, the harness compares
+ok-vs-refused only. -/
 theorem non_items_are_refused (s : Seq) (b : Bool) :
     otherRefusal (Gen.csAppendCheck s.isRoot s.isSr false b) = some .type ∧
     otherRefusal (Gen.csInsertCheck s.isRoot s.isSr false b) = some .type ∧
@@ -450,6 +454,16 @@ theorem non_items_are_refused (s : Seq) (b : Bool) :
       cases e with
       | none => exact ⟨rfl, by simp [appendOther, (other_refused s1.isRoot s1.isSr false).1]⟩
       | some e => exact ⟨rfl, rfl⟩
+
+/-- **The constructor refuses what is not a content item** — at the first statement of its regenerated program that
+touches the single items: with the current source that is the index fill (AttributeError for a plain `Dataset`, which has
+no `name`), not the `isinstance` check (TypeError) that follows it; no sequence exists afterwards.  (A source that checks
+first turns this into `.type` and breaks the theorem: the refusal kind follows the statement order of the source.) -/
+theorem constructor_refuses_non_items :
+    ctorOtherRefusal Gen.csProg_init = some .attribute ∧ constructOther = .error .attribute ∧
+    (∀ r sr b c, Gen.csCtorCheck r sr false b c = .error .type) := by
+  refine ⟨by decide, rfl, fun r sr b c => ?_⟩
+  cases r <;> cases sr <;> cases b <;> cases c <;> rfl
 
 end Refinement
 
@@ -502,13 +516,14 @@ end Copies
 /-- **The state of the object is the modelled one** (regenerated, target T14s): the methods of the class assign exactly
 `_is_root`, `_is_sr`, `_lut` on `self` (next to the list of the pydicom base class — the four fields of the model's `Seq`;
 a cache or a second index would be a fifth), `is_root` / `is_sr` hand out those two attributes, the class has the one
-base class, binds nothing in its body other than by `def`, and defines none of the hooks that would change what
+base class, binds nothing in its body other than by `def`, its one override that is not a T14p program — `__iter__` — is
+exactly `return super().__iter__()`, and it defines none of the hooks that would change what
 `copy.copy` / `copy.deepcopy` / pickling do (`Model/SRSeqPool.lean` reads them as CPython's defaults) nor any of the
 inherited list methods the model takes from `collections.abc.MutableSequence` / pydicom as they are. -/
 theorem object_state_pinned :
     Gen.csInstanceAttrs = ["_is_root", "_is_sr", "_lut"] ∧
     Gen.csFlagProps = [("is_root", "_is_root"), ("is_sr", "_is_sr")] ∧
-    Gen.csBases = ["DataElementSequence"] ∧ Gen.csClassLevelNames = [] ∧
+    Gen.csBases = ["DataElementSequence"] ∧ Gen.csClassLevelNames = [] ∧ Gen.csIterDelegates = true ∧
     (∀ m ∈ ["__copy__", "__deepcopy__", "__reduce__", "__reduce_ex__", "__getstate__", "__setstate__", "__getnewargs__",
             "__new__", "__getattr__", "__getattribute__", "__setattr__",
             "__getitem__", "__len__", "__eq__", "__ne__", "__reversed__", "__add__", "__mul__", "__imul__",
